@@ -581,6 +581,128 @@ fn run_hist(case: &Value, base: &Path, serial: u64) -> Value {
     res
 }
 
+/// Parallel stress (no model term): the real store on a MULTI-THREAD runtime, many validated puts of
+/// large values to distinct keys issued back to back so that their disk-write tasks truly overlap,
+/// notifications handled concurrently; then everything is read back from disk (1-entry cache).
+fn run_stress(case: &Value, base: &Path, serial: u64) -> Value {
+    let n = case["n"].as_u64().unwrap() as usize;
+    let smin = case["size_min"].as_u64().unwrap() as usize;
+    let smax = case["size_max"].as_u64().unwrap() as usize;
+    let workers = case["workers"].as_u64().unwrap_or(8) as usize;
+    let mut seed = case["seed"].as_u64().unwrap_or(1) | 1;
+    let mut next = move || {
+        // xorshift64*
+        seed ^= seed >> 12;
+        seed ^= seed << 25;
+        seed ^= seed >> 27;
+        seed.wrapping_mul(0x2545F4914F6CDD1D)
+    };
+    let root = base.join(format!("stress{serial}"));
+    let _ = std::fs::remove_dir_all(&root);
+    let storage = root.join("record_store");
+    std::fs::create_dir_all(&storage).unwrap();
+    let mut keys: Vec<Key> = vec![];
+    let mut vals: Vec<Vec<u8>> = vec![];
+    for i in 0..n {
+        let mut k = vec![0u8; 32];
+        for b in k.iter_mut() { *b = (next() >> 32) as u8; }
+        k[0] = (i >> 8) as u8;
+        k[1] = i as u8;
+        keys.push(Key::from(k));
+        let len = smin + (next() as usize) % (smax - smin + 1);
+        let mut v = vec![0u8; len];
+        let (a, b) = ((next() >> 24) as u8, ((next() >> 24) as u8) | 1);
+        for (j, x) in v.iter_mut().enumerate() { *x = a.wrapping_add((j as u8).wrapping_mul(b)).wrapping_add((j >> 8) as u8); }
+        v[0] = 0x91;
+        v[1] = 1;
+        v[2] = i as u8;
+        v[3] = (i >> 8) as u8;
+        vals.push(v);
+    }
+    let rt = tokio::runtime::Builder::new_multi_thread().worker_threads(workers).enable_time().build().expect("runtime");
+    let _g = rt.enter();
+    let mut mh = vec![0x12u8, 0x20];
+    mh.extend_from_slice(&[7u8; 32]);
+    let peer = StorePeerId::from_bytes(&mh).unwrap();
+    let seed16: [u8; 16] = peer.to_bytes()[..16].try_into().unwrap();
+    let cfg = NodeRecordStoreConfig {
+        storage_dir: storage.clone(),
+        historic_quote_dir: root.clone(),
+        max_records: 16384,
+        records_cache_size: 1,
+        encryption_seed: seed16,
+        ..Default::default()
+    };
+    let (tx_evt, _rx_evt) = mpsc::channel(1000);
+    let (tx_cmd, mut rx_cmd) = mpsc::channel::<LocalSwarmCmd>(case["chan_cap"].as_u64().unwrap_or(10_000) as usize);
+    let mut store = rs::new_node_store(peer, cfg, tx_evt, tx_cmd);
+    let t0 = std::time::Instant::now();
+    let mut accepted = 0usize;
+    let mut refused: Vec<usize> = vec![];
+    let mut stored_n = 0usize;
+    let mut failed: Vec<u64> = vec![];
+    let kix = |k: &Key, keys: &Vec<Key>| keys.iter().position(|x| x == k).map(|i| i as u64).unwrap_or(NF);
+    let mut handle = |store: &mut UnifiedRecordStore, n: LocalSwarmCmd, stored_n: &mut usize, failed: &mut Vec<u64>| match n {
+        LocalSwarmCmd::AddLocalRecordAsStored { key, record_type } => {
+            *stored_n += 1;
+            rs::mark_as_stored(store, key, record_type)
+        }
+        LocalSwarmCmd::RemoveFailedLocalRecord { key } => {
+            failed.push(kix(&key, &keys));
+            store.remove(&key)
+        }
+        _ => {}
+    };
+    for i in 0..n {
+        let rec = Record { key: keys[i].clone(), value: vals[i].clone(), publisher: None, expires: None };
+        match rs::put_verified(&mut store, rec, RecordType::Chunk) {
+            Ok(()) => accepted += 1,
+            Err(_) => refused.push(i),
+        }
+        // the driver keeps taking commands while puts arrive
+        while let Ok(c) = rx_cmd.try_recv() {
+            handle(&mut store, c, &mut stored_n, &mut failed);
+        }
+    }
+    // drain until every accepted write has reported its outcome (or 60 s passed)
+    let deadline = std::time::Instant::now() + std::time::Duration::from_secs(60);
+    while stored_n + failed.len() < accepted && std::time::Instant::now() < deadline {
+        match rt.block_on(async { tokio::time::timeout(std::time::Duration::from_millis(200), rx_cmd.recv()).await }) {
+            Ok(Some(c)) => handle(&mut store, c, &mut stored_n, &mut failed),
+            _ => {}
+        }
+    }
+    // let the remaining background tasks (deletes of failed writes, metrics flush) finish
+    let mut spins = 0;
+    while rt.metrics().num_alive_tasks() > 0 && spins < 2000 {
+        std::thread::sleep(std::time::Duration::from_millis(5));
+        spins += 1;
+    }
+    let write_ms = t0.elapsed().as_millis() as u64;
+    // read every key back: 1-entry cache, so (almost) everything comes from disk
+    let mut bad: Vec<Value> = vec![];
+    let mut listed = 0usize;
+    for i in 0..n {
+        if rs::contains(&store, &keys[i]) { listed += 1; }
+        match store.get(&keys[i]).map(|r| r.into_owned()) {
+            Some(r) => {
+                if r.key != keys[i] || r.value != vals[i] {
+                    let whose = vals.iter().position(|v| *v == r.value).map(|j| j as u64);
+                    bad.push(json!({"k": i, "got": "other", "value_of_key": whose, "len": r.value.len()}));
+                }
+            }
+            None => bad.push(json!({"k": i, "got": "nothing", "listed": rs::contains(&store, &keys[i])})),
+        }
+    }
+    let leftovers: Vec<String> = list_dir(&storage).keys().filter(|nm| rs::key_of_filename(nm).map(|k| kix(&k, &keys) == NF).unwrap_or(true)).cloned().collect();
+    drop(store);
+    drop(_g);
+    drop(rt);
+    let _ = std::fs::remove_dir_all(&root);
+    json!({"n": n, "accepted": accepted, "refused": refused, "stored": stored_n, "failed": failed, "listed": listed,
+           "bad": bad, "leftover_files": leftovers, "ms": write_ms, "encrypt": rs::encrypt_records_enabled()})
+}
+
 fn run(case: &Value, base: &Path, serial: u64) -> Value {
     match case["kind"].as_str().unwrap_or("hist") {
         "hist" => run_hist(case, base, serial),
@@ -595,6 +717,7 @@ fn run(case: &Value, base: &Path, serial: u64) -> Value {
                 Err(_) => json!({"kind": null, "is_chunk": null}),
             }
         }
+        "stress" => run_stress(case, base, serial),
         "startup" => {
             // the real check_and_wipe_storage_dir_if_necessary on a prepared directory
             let root = base.join(format!("startup{serial}"));
